@@ -433,7 +433,27 @@ def directive_layout(case, rng):
 def run_layout(ctx, res, case, rng, lib=True):
     d = ctx.casedir()
     materialise(d, case['files'], rng)
-    argv = [ctx.bin('bkl'), '-f', 'json'] + (['-P'] if case['skipP'] else []) + case['inputs']
+    os.makedirs(os.path.join(d, 'zsub'), exist_ok=True)
+
+    def spell(p):
+        r = rng.random()
+        if r < 0.15:
+            return './' + p
+        if r < 0.25:
+            return 'zsub/../' + p
+        if r < 0.3:
+            return os.path.join(d, p)
+        return p
+    fflag = rng.choice([['-f', 'json'], ['-f', 'json'], ['-fjson'], ['--format=json'], ['--format', 'json']])
+    pflag = ([rng.choice(['-P', '--skip-parent'])] if case['skipP'] else [])
+    ins = [spell(p) for p in case['inputs']]
+    order = rng.random()
+    if order < 0.7:
+        argv = [ctx.bin('bkl')] + fflag + pflag + ins
+    elif order < 0.85:
+        argv = [ctx.bin('bkl')] + ins + pflag + fflag
+    else:
+        argv = [ctx.bin('bkl')] + pflag + ins[:1] + fflag + ins[1:]
     r = cli(argv, cwd=d)
     res.execs += 1
     out = {'rc': r.rc, 'stdout': r.out, 'stderr': r.err.decode('utf-8', 'replace')[-300:], 'dir': d}
